@@ -54,7 +54,7 @@ pub fn spec(prop: &str) -> Option<PropSpec> {
         "C04" => s("C04", "exploration", 150000, 2250000, &["probe.read_checked_exact", "probe.read_checked_array_conflict"], &[],
             "documents from the generator family submitted in reachable states; read compared with the submitted document after every update; non-trivial = at least one update was checked; distinct = distinct op sequence hash",
             &["probe.read_checked_exact", "probe.read_checked_array_conflict", "probe.update_twice", "probe.commit_nothing_staged"]),
-        "C05" => s("C05", "exploration", 24000, 600000, &["probe.tree_prefix_checked"], &["probe.tree_checked"],
+        "C05" => s("C05", "exploration", 20000, 600000, &["probe.tree_prefix_checked"], &["probe.tree_checked"],
             "every object of every replica at every sync point and after every staging op: winner/conflicts vs the reference rule on the recorded revision set, plus re-insertion in ALL insertion orders for trees of up to 5 revisions (every third step) and in reverse + seeded permutations for larger ones, with a check after every prefix; non-trivial = at least one tree with >= 2 revisions was permuted; distinct = distinct op sequence hash",
             &["probe.tree_prefix_checked", "probe.tree_all_orders", "probe.tree_synthetic", "probe.tree_synthetic_child_of_marker", "probe.tree_prefix_dangling_parent", "probe.conflict_at_sync", "probe.three_live_leaves", "probe.revision_index_ge_10", "probe.resolve"]),
         "C11" => s("C11", "exploration", 100000, 1500000, &["probe.write_checked"], &["probe.delivered"],
